@@ -316,7 +316,7 @@ theorem insertAtMatches_filter [DecidableEq α] (after : Bool) (x : α) (l : Lis
       simp only [ne_eq, decide_not] at this
       cases b <;> cases after <;> simp [insertAtMatches, List.filter_cons, this]
 
-theorem insertAtMatches_count [DecidableEq α] (after : Bool) (x : α) (l : List α) (row : List Bool) :
+theorem insertAtMatches_count [BEq α] [LawfulBEq α] (after : Bool) (x : α) (l : List α) (row : List Bool) :
     (insertAtMatches after x l row).count x = l.count x + matchCount l.length row := by
   induction l generalizing row with
   | nil => simp [insertAtMatches, matchCount]
@@ -554,5 +554,47 @@ theorem familyEndpoint_lt_size {t : T} (hf : Forest t) {i : Nat} (hi : i < t.siz
   rcases List.mem_cons.mp (familyEndpoint_max hf i).1 with h | h
   · rw [h]; exact hi
   · exact ancestors_lt_size hf ((mem_allChildren hf).mp h)
+
+/-! ## helpers for the C06 statements -/
+
+/-- texts after a successful edit when the following auto-commit does not filter -/
+theorem edited_texts (s : S) (hnf : NoFilter s) (txts : List Str) (st : Bool) :
+    (autoCommit { s with texts := txts, stale := st, dirty := true }).texts = txts :=
+  autoCommit_texts _ hnf
+
+theorem insertPos_natCast (n idx : Nat) : insertPos n (idx : Int) = min idx n := by
+  unfold insertPos; split <;> omega
+
+theorem set_frame (old : List α) (i : Nat) (x : α) (hi : i < old.length) :
+    (old.set i x).length = old.length ∧ (old.set i x)[i]? = some x ∧
+    ∀ m, m ≠ i → (old.set i x)[m]? = old[m]? := by
+  refine ⟨by simp, by simp [hi], ?_⟩
+  intro m hm
+  rw [List.getElem?_set_ne (Ne.symm hm)]
+
+/-- the removed set of `delete`, under `Forest`: the line and the lines below it -/
+theorem delete_filter_forest {t : T} (hf : Forest t) (l : List Str) (i : Nat) :
+    eraseAll l (descendantsAndSelf t i)
+      = (l.zipIdx.filter (fun p => decide (p.2 ≠ i ∧ i ∉ ancestors t p.2))).map (·.1) := by
+  rw [eraseAll_eq_filter]
+  congr 1
+  apply List.filter_congr
+  intro p _
+  have h3 := mem_allChildren hf (i := i) (j := p.2)
+  by_cases h1 : p.2 = i <;> by_cases h2 : i ∈ ancestors t p.2 <;>
+    simp [descendantsAndSelf, h1, h2, h3]
+
+theorem delete_length_forest {t : T} (hf : Forest t) (l : List Str) (i : Nat) (hsz : t.size = l.length)
+    (hi : i < l.length) :
+    (eraseAll l (descendantsAndSelf t i)).length + 1 + (allChildren t i).length = l.length := by
+  have h := eraseAll_length l (descendantsAndSelf t i) ?_ ?_
+  · simp only [descendantsAndSelf, List.length_cons] at h ⊢; omega
+  · refine List.nodup_cons.mpr ⟨?_, nodup_of_sorted (allChildren_sorted hf i)⟩
+    intro hm
+    have := ancestors_lt ((mem_allChildren hf).mp hm); omega
+  · intro j hj
+    rcases List.mem_cons.mp hj with rfl | hj
+    · exact hi
+    · have := ancestors_lt_size hf ((mem_allChildren hf).mp hj); omega
 
 end Ccp.Edit
